@@ -71,7 +71,11 @@ TRUSTED = [
 EXPLANATION_A7 = ("Until proposed_fixes/C07-A7.patch is committed the check FAILS on /repo: a variable value nested ~500+ levels through a recursive "
                   "input object (and the json.dumps of a deeply nested rejected value inside the error handler) raises RecursionError out of "
                   "graphql_blocking; signature non-coercion-exception:RecursionError:*. ")
-EXPLANATION = EXPLANATION_A7 + ("Theorems (Props/C07*.lean) are about the model of the code WITH proposed_fixes/C07-A1-A5.patch; the unchanged tree falsifies "
+EXPLANATION_HUNT = ("Hunt round: until proposed_fixes/C07-E1-enum-reverse-map.patch, C07-B1-int-bool.patch and the C06 owner's enter_list_value patch are "
+                    "committed the check FAILS on /repo (enum-echo-differs:equal-internal-values; nonconforming-argument:Int-is-bool:* + "
+                    "coerceInt_branches_spec; nonconforming-argument:not-a-list:variable-in-list-literal / inline-vs-variable-differs:"
+                    "variable-in-list-literal). Known findings: A8 (cross-kind scalars), A9 (missing-variable-in-literal:*). ")
+EXPLANATION = EXPLANATION_HUNT + ("Theorems (Props/C07*.lean) are about the model of the code WITH proposed_fixes/C07-A1-A5.patch; the unchanged tree falsifies "
                "int_full_range (A1), variable_sound/literal_variable_equiv (A2), arguments_sound (A3), rejects_structurally_wrong_json (A4) and "
                "rejects_unknown_field on the literal route (A5) and the direct oracle reports a replay for each. Observed, not C07: an object literal at a "
                "custom-scalar argument makes graphql_blocking raise AttributeError (ScalarType.parse_literal reads node.value) - counted under "
@@ -253,6 +257,9 @@ def dispatch_table(fn_name):
         first = body[0]
         if isinstance(first, ast.Assign) and isinstance(first.value, ast.Name) and first.value.id == param:
             return "identity"
+        if (len(body) == 1 and isinstance(first, ast.Assign) and isinstance(first.value, ast.Call) and getattr(first.value.func, "id", None) == "int"
+                and len(first.value.args) == 1 and isinstance(first.value.args[0], ast.Name) and first.value.args[0].id == param):
+            return "int()"                       # numeric = int(x): a bool becomes the integer 1 / 0
         if (isinstance(first, ast.Try) and len(first.body) == 1 and isinstance(first.body[0], ast.Assign)
                 and isinstance(first.body[0].value, ast.Call) and getattr(first.body[0].value.func, "id", None) == "int"
                 and len(first.body[0].value.args) == 1
@@ -1572,6 +1579,138 @@ def run_cross_kind(ctx):
             chk.check_group(world, spec, g, outcomes)
 
 
+def run_nested_vars(ctx):
+    """Variables INSIDE list literals (list depth 1-3) and inside input-object fields, through the full entry point.
+    (a) a variable whose type is too shallow for its position (`$v: Int` as an item of `[$v]` at a `[[Int]]` argument) must be refused
+        before any resolver runs - or, if anything is called, the kwargs conform; `[$v]` with v=5 and inline `[5]` agree (hunt C07/1);
+    (b) an OMITTED nullable variable inside a literal: an object field bound to it counts as absent (its default applies), a list item
+        is null (GraphQL June 2018 3.10 / graphql-js) - the library fails the whole field instead (hunt C07/2 = C04/1, pinned by
+        tests/test_utilities/test_value_from_ast.py: known finding A9);
+    (c) an enum argument echoed by its resolver comes back under the SAME name even when internal values compare equal (0 / False,
+        1 / True): hunt C04/5."""
+    from py_gql import graphql_blocking
+    from py_gql.schema import Argument, EnumType, Field, InputField, InputObjectType, Int, ListType, NonNullType, ObjectType, Schema, String
+    rng = ctx.rng
+    Level = EnumType("Level", [("ZERO", 0), ("ONE", 1), ("NO", False), ("YES", True), ("S", "s")])
+    Grid = InputObjectType("Grid", [InputField("rows", ListType(ListType(Int))), InputField("lv", ListType(ListType(NonNullType(Level)))),
+                                    InputField("a", String), InputField("b", Int, default_value=7), InputField("l", ListType(Int), python_name="l_py")])
+    seen = []
+
+    def rec(root, c, info, **kw):
+        seen.append(kw)
+        return kw.get("v")
+
+    def lst(t, d):
+        for _ in range(d):
+            t = ListType(t)
+        return t
+    fields = [Field("i%d" % d, String, args=[Argument("x", lst(Int, d))], resolver=rec) for d in (1, 2, 3)] + \
+             [Field("e%d" % d, String, args=[Argument("x", lst(Level, d))], resolver=rec) for d in (1, 2)] + \
+             [Field("g", String, args=[Argument("x", Grid)], resolver=rec), Field("same", Level, args=[Argument("v", Level)], resolver=rec)]
+    schema = Schema(query_type=ObjectType("Query", fields))
+    schema.validate()
+    internal = {"ZERO": 0, "ONE": 1, "NO": False, "YES": True, "S": "s"}
+
+    def run(doc, variables):
+        seen[:] = []
+        try:
+            r = graphql_blocking(schema, doc, variables=variables)
+        except Exception as e:  # noqa
+            return ("internal", type(e).__name__), None
+        if len(seen) == 1:
+            return ("called", seen[0].get("x", seen[0].get("v", "<absent>")) if True else None), r
+        return (("rejected",) if r.errors else ("nothing",)), r
+
+    def conforms_list(v, depth, leaf):
+        if v is None:
+            return True
+        if depth == 0:
+            return leaf(v)
+        return isinstance(v, list) and all(conforms_list(x, depth - 1, leaf) for x in v)
+    is_int = lambda v: type(v) is int or isinstance(v, bool)       # noqa: E731
+    is_lvl = lambda v: any(type(v) is type(i) and v == i for i in internal.values())  # noqa: E731
+
+    def lit_of(v):
+        if v is None:
+            return "null"
+        if isinstance(v, list):
+            return "[" + ", ".join(lit_of(x) for x in v) + "]"
+        return str(v)
+
+    # ---- (a) variable too shallow for its position
+    cases = []
+    for base, tyname, val, leaf in (("i", "Int", 5, is_int), ("e", "Level", "ONE", is_lvl)):
+        for d in ((1, 2, 3) if base == "i" else (1, 2)):
+            for vd in range(0, d):                          # the variable's own list depth
+                for shape in ("[$v]", "[$v, $v]") + (("[[$v]]",) if d >= 2 else ()):
+                    lit_depth = shape.count("[") // max(1, shape.count("$v")) if shape != "[$v, $v]" else 1
+                    vty = "[" * vd + tyname + "]" * vd
+                    vval = val
+                    for _ in range(vd):
+                        vval = [vval]
+                    cases.append((base + str(d), d, leaf, "query($v: %s) { %s%d(x: %s) }" % (vty, base, d, shape), {"v": vval}, vd + lit_depth, shape, vval))
+    for field, d, leaf, doc, variables, have, shape, vval in cases:
+        out, _ = run(doc, variables)
+        ctx.count()
+        ctx.stat("nested-var:%s" % out[0])
+        detail = {"check": "nested-var", "document": doc, "variables": json.dumps(variables), "outcome": [out[0], repr(out[1:])]}
+        if out[0] == "called" and not conforms_list(out[1], d, leaf):
+            ctx.fail("nonconforming-argument:not-a-list:variable-in-list-literal",
+                     "a variable of a too shallow type inside a list literal reached the resolver unwrapped (argument of list depth %d)" % d,
+                     dict(detail, kwargs=repr(out[1])))
+        if out[0] == "called":
+            # inline equals variable: the same document with the variable's value written in place
+            inline = "{ %s(x: %s) }" % (field, shape.replace("$v", lit_of(vval) if not isinstance(vval, str) else vval))
+            out2, _ = run(inline, None)
+            if out2 != out and not (out2[0] == "called" and out[0] == "called" and out2[1] == out[1]):
+                ctx.fail("inline-vs-variable-differs:variable-in-list-literal",
+                         "a value written inline and the same value through a variable inside a list literal give the resolver different arguments",
+                         dict(detail, inline_document=inline, inline_outcome=[out2[0], repr(out2[1:])]))
+            ctx.nontrivial(("nested-var", doc))
+    # the same through an input-object field
+    for doc, variables, key, d, leaf in (("query($v: Int) { g(x: {rows: [$v]}) }", {"v": 5}, "rows", 2, is_int),
+                                         ("query($v: [Int]) { g(x: {rows: [$v, [1]]}) }", {"v": [5]}, "rows", 2, is_int),
+                                         ("query($v: Level) { g(x: {lv: [$v]}) }", {"v": "NO"}, "lv", 2, is_lvl),
+                                         ("query($v: Int) { g(x: {l: [$v], b: $v}) }", {"v": 5}, "l_py", 1, is_int)):
+        out, _ = run(doc, variables)
+        ctx.count()
+        ctx.stat("nested-var:%s" % out[0])
+        if out[0] == "called" and isinstance(out[1], dict) and not conforms_list(out[1].get(key), d, leaf):
+            ctx.fail("nonconforming-argument:not-a-list:variable-in-list-literal",
+                     "a variable of a too shallow type inside a list literal (input-object field) reached the resolver unwrapped",
+                     {"check": "nested-var", "document": doc, "variables": json.dumps(variables), "kwargs": repr(out[1])})
+
+    # ---- (b) an omitted nullable variable inside a literal
+    for doc, ref_doc, where in (("query($v: String) { g(x: {a: $v, b: 1}) }", "{ g(x: {b: 1}) }", "object-field"),
+                                ("query($v: Int) { g(x: {a: \"s\", b: $v}) }", "{ g(x: {a: \"s\"}) }", "object-field"),
+                                ("query($v: Int) { g(x: {l: [1, $v]}) }", "{ g(x: {l: [1, null]}) }", "list-item"),
+                                ("query($v: Int) { i1(x: [1, $v]) }", "{ i1(x: [1, null]) }", "list-item"),
+                                ("query($v: [Int]) { i2(x: [[1], $v]) }", "{ i2(x: [[1], null]) }", "list-item")):
+        out, _ = run(doc, {})
+        ref, _ = run(ref_doc, None)
+        ctx.count(2)
+        ctx.stat("missing-nested-var:%s" % out[0])
+        if out != ref:
+            ctx.fail("missing-variable-in-literal:%s" % where,
+                     "an omitted nullable variable inside a literal does not behave like an absent field / a null item: the field fails",
+                     {"check": "nested-var", "document": doc, "variables": "{}", "outcome": [out[0], repr(out[1:])], "same_as_document": ref_doc,
+                      "expected": [ref[0], repr(ref[1:])]})
+
+    # ---- (c) enum echo
+    for name in internal:
+        for doc, variables in (("{ same(v: %s) }" % name, None), ("query($v: Level) { same(v: $v) }", {"v": name})):
+            out, r = run(doc, variables)
+            ctx.count()
+            got = r.data.get("same") if (r is not None and r.data) else None
+            if out[0] != "called" or type(out[1]) is not type(internal[name]) or out[1] != internal[name]:
+                ctx.fail("nonconforming-argument:enum-not-internal-value:equal-internal-values", "an enum name did not reach the resolver as ITS internal value",
+                         {"check": "nested-var", "document": doc, "variables": json.dumps(variables), "outcome": [out[0], repr(out[1:])]})
+            elif got != name:
+                ctx.fail("enum-echo-differs:equal-internal-values", "an enum argument returned unchanged by its resolver is serialised under another name "
+                         "(internal values that compare equal: 0/False, 1/True share one slot of the reverse map)",
+                         {"check": "nested-var", "document": doc, "variables": json.dumps(variables), "received": repr(out[1]), "response": got, "expected": name})
+
+
 def run_extremes(ctx):
     """JSON values at the edge: ±inf, NaN, integers far beyond a double, and containers nested hundreds / thousands deep through a
     RECURSIVE input object — sent through `variables` to every kind of position and to `coerce_value` directly. The statement's
@@ -1716,6 +1855,7 @@ def run(ctx):
     run_corpus(ctx)
     run_extremes(ctx)
     run_cross_kind(ctx)
+    run_nested_vars(ctx)
     run_collisions(ctx)
     run_pynum(ctx, ctx.n(2000, 15000))
     # the hand-written registry: all type expressions up to 3 wrappers (quick: all <=2, a sample of depth 3)
@@ -1768,6 +1908,12 @@ def replay(ctx, data, record=False):
         return True
     if inp.get("check") == "extreme":
         return replay_extreme(inp)
+    if inp.get("check") == "nested-var":
+        c2 = type(ctx)(ctx.prop, ctx.tier, ctx.seed)
+        c2.model_ok = False
+        run_nested_vars(c2)
+        sig = data.get("signature")
+        return not any(f["signature"] == sig for f in c2.found)
     if inp.get("check") == "declaration":
         from corr import C07_history
         h = inp["history"]
